@@ -111,7 +111,11 @@ class FormulaEvaluator(Generic[QuantityT]):
                 f"Some resampled metrics didn't arrive, for formula: {self._name}"
             )
 
-        if self._first_run:
+        # The streams are expected to stay synchronized after the first run, but when a
+        # round had to be dropped (for example because a primary stream failed and its
+        # fallback was just started), some fetchers are ahead of the others and need
+        # to be synchronized again.
+        if self._first_run or len({m.result().timestamp for m in ready_metrics}) > 1:
             metric_ts = await self._synchronize_metric_timestamps(ready_metrics)
         else:
             sample = next(iter(ready_metrics)).result()
